@@ -222,7 +222,7 @@ def worker(inst):
     from symx.symarray import use_logsumexp_spec
     use_logsumexp_spec()
     tier = os.environ.get("VERIF_TIER", "quick")
-    out = decide(_label(inst), build_obligation(inst), timeout_ms=6000 if tier == "quick" else 60000, twin=True)
+    out = decide(_label(inst), build_obligation(inst), timeout_ms=6000 if tier == "quick" else 20000, twin=True)
     out["prog"] = out["label"]
     return out
 
